@@ -126,6 +126,7 @@ func driveTunnel(beh behaviour, seed int64) *fw.Trace {
 	setHook(func(name string) {
 		if name == hpTunnel {
 			r.s.Gate(hpTunnel, nil)
+			r.s.After() // lets the scheduler see that the adopted copy goroutine has moved on
 		}
 	})
 	for i, st := range beh.Steps {
